@@ -4,6 +4,7 @@ package main
 
 import (
 	"fmt"
+	"math/big"
 	"strconv"
 	"strings"
 )
@@ -101,7 +102,85 @@ func emCell(c Cell) string {
 	panic("emCell: " + c.T)
 }
 
-func emCells(cs []Cell) string { return emList(cs, emCell) }
+// emCells writes a cell list; long lists are written compactly where they are regular: a run of
+// identical cells as (rep n c), an arithmetic progression of integers of one kind as (iota K start step n)
+func emCells(cs []Cell) string {
+	if len(cs) < 12 {
+		return emList(cs, emCell)
+	}
+	same := func(a, b Cell) bool {
+		if a.T != b.T || a.I != b.I || a.F != b.F || a.S != b.S || a.B != b.B || len(a.Tm) != len(b.Tm) {
+			return false
+		}
+		for i := range a.Tm {
+			if a.Tm[i] != b.Tm[i] {
+				return false
+			}
+		}
+		return true
+	}
+	ival := func(c Cell) (*big.Int, bool) {
+		if _, ok := ikinds[c.T]; !ok {
+			return nil, false
+		}
+		v, ok := new(big.Int).SetString(c.I, 10)
+		return v, ok
+	}
+	zlit := func(v *big.Int) string {
+		if v.Sign() < 0 {
+			return "(" + v.String() + ")"
+		}
+		return v.String()
+	}
+	parts := []string{}
+	lit := []Cell{}
+	flush := func() {
+		if len(lit) > 0 {
+			parts = append(parts, emList(lit, emCell))
+			lit = nil
+		}
+	}
+	i := 0
+	for i < len(cs) {
+		j := i + 1
+		for j < len(cs) && same(cs[j], cs[i]) {
+			j++
+		}
+		if j-i >= 4 {
+			flush()
+			parts = append(parts, fmt.Sprintf("(rep %d %s)", j-i, emCell(cs[i])))
+			i = j
+			continue
+		}
+		if v0, ok := ival(cs[i]); ok && i+1 < len(cs) && cs[i+1].T == cs[i].T {
+			v1, _ := ival(cs[i+1])
+			step := new(big.Int).Sub(v1, v0)
+			prev := v1
+			j = i + 2
+			for j < len(cs) && cs[j].T == cs[i].T {
+				vj, _ := ival(cs[j])
+				if new(big.Int).Sub(vj, prev).Cmp(step) != 0 {
+					break
+				}
+				prev = vj
+				j++
+			}
+			if j-i >= 4 {
+				flush()
+				parts = append(parts, fmt.Sprintf("(iota %s %s %s %d)", ikinds[cs[i].T], zlit(v0), zlit(step), j-i))
+				i = j
+				continue
+			}
+		}
+		lit = append(lit, cs[i])
+		i++
+	}
+	flush()
+	if len(parts) == 1 {
+		return parts[0]
+	}
+	return "(" + strings.Join(parts, " ++ ") + ")"
+}
 
 func emFrame(f Frame) string {
 	return emList(f.Cols, func(c Col) string {
